@@ -98,6 +98,7 @@ class Session:
         self.cmp_mask: list[bool] = []
         self.env = {"tz": "UTC", "clock": [1_700_000_000, 0], "reclimit": 1000}
         self.fault_fired_before = False
+        self.prebuilt = {}
         self.is_cold = cold
         self._cold = None
         self.rng = core.rng_for(self.seed, "exec")
@@ -120,6 +121,13 @@ class Session:
         if "reclimit" in env:
             sys.setrecursionlimit(max(1000, int(env["reclimit"])))
             self.env["reclimit"] = max(1000, int(env["reclimit"]))
+        if "warnings" in env:
+            # the process-wide warnings filter (python -W error / PYTHONWARNINGS / pytest filterwarnings)
+            import warnings
+
+            warnings.resetwarnings()
+            warnings.simplefilter(env["warnings"])
+            self.env["warnings"] = env["warnings"]
 
     # ------------------------------------------------------------------ calling
     def call(self, step: dict, fn, *args, **kwargs):
@@ -169,7 +177,10 @@ class Session:
             if op == "build":
                 return self.scan_exhaust(step, getattr(typelib, step["kind"]), self.T(step))
             if op in ("marshal", "roundtrip") and step.get("t") is not None and not _one_shot(step["v"]):
-                return self.scan_exhaust(step, typelib.marshal, self.V(step["v"]), t=self.T(step))
+                v = self.V(step["v"])
+                if op == "marshal":
+                    self.prebuilt[step.get("id")] = v  # the step itself then converts this very object
+                return self.scan_exhaust(step, typelib.marshal, v, t=self.T(step))
             if op == "unmarshal" and not _one_shot(step["x"]):
                 return self.scan_exhaust(step, typelib.unmarshal, self.T(step), self.V(step["x"]))
         except (ValueError, StopIteration, RuntimeError):
@@ -228,7 +239,7 @@ class Session:
                 self.results[sid] = out.value
             return out
         if op == "marshal":
-            v = self.V(step["v"])
+            v = self.prebuilt.pop(sid) if sid in self.prebuilt else self.V(step["v"])
             self.inputs[sid] = v
             if step.get("t") is None:
                 out = self.guarded(self.call, step, typelib.marshal, v)
